@@ -129,8 +129,8 @@ func c03RunParse(kind, tail string, data []byte) T {
 const c03Schema = `
 type Query { a(x: Int, y: String): Int  b: Int  s(in: In, l: [Int!], e: Col): String  o: Obj  os: [Obj]  u: [Un]  n(req: Int!): Int }
 type Mutation { m(x: Int): Int }
-type Obj implements Named { name: String  next: Obj  kids: [Obj]  two(p: Int, q: Boolean): Int }
-type Other implements Named { name: String  w: Int }
+type Obj implements Named { name: String  next: Obj  kids: [Obj]  two(p: Int, q: Boolean): Int  says(loud: Boolean, times: Int): String }
+type Other implements Named { name: String  w: Int  says(loud: Boolean, times: Int): String }
 interface Named { name: String }
 union Un = Obj | Other
 enum Col { RED GREEN }
@@ -156,6 +156,8 @@ type c03Obj struct {
 }
 
 func (o *c03Obj) Two(p int32, q bool) int { return int(p) }
+func (o *c03Obj) Says(loud bool, times int32) string { return "obj" }
+func (o *c03Other) Says(loud bool, times int32) string { return "other" }
 
 type c03Other struct {
 	Name string
@@ -181,8 +183,24 @@ func (n *c03Node) Resolve(f *ggql.Field, args map[string]interface{}) (interface
 		return "s", nil
 	case "o", "next", "query", "mutation":
 		return n, nil
-	case "os", "kids", "u":
+	case "os", "kids":
 		return []interface{}{n}, nil
+	case "u":
+		return []interface{}{n, &c03OtherNode{}, n}, nil
+	case "says":
+		return "obj", nil
+	}
+	return nil, nil
+}
+
+type c03OtherNode struct{}
+
+func (n *c03OtherNode) Resolve(f *ggql.Field, args map[string]interface{}) (interface{}, error) {
+	switch f.Name {
+	case "w":
+		return 1, nil
+	case "name", "says":
+		return "other", nil
 	}
 	return nil, nil
 }
@@ -215,6 +233,10 @@ func c03Root(strategy string) *ggql.Root {
 	case "iface":
 		n := &c03Node{}
 		root = ggql.NewRoot(n)
+		defer func() {
+			_ = root.RegisterType(&c03Node{}, "Obj")
+			_ = root.RegisterType(&c03OtherNode{}, "Other")
+		}()
 	case "any":
 		obj := map[string]interface{}{"name": "x", "two": 2, "w": 1}
 		obj["next"] = obj
@@ -689,7 +711,7 @@ func c03Requests(r *Rng) [][2]string {
 	fields := []string{"a", "a(x: 1)", "a(x: 1, y: \"s\")", "a(y: \"s\")", "a(x: null)", "a(x: \"no\")", "a(x: $v)", "a(x: 1, z: 2)", "a(x: [1])", "a(x: RED)",
 		"b", "s(in: {p: 1})", "s(in: {p: \"x\"})", "s(in: {zz: 1})", "s(in: {r: {r: {p: 1}}})", "s(in: {must: null})", "s(in: $in)", "s(l: [1, null])", "s(l: 1)", "s(l: [[1]])", "s(e: RED)", "s(e: BLUE)", "s(e: \"RED\")",
 		"n", "n(req: null)", "n(req: $v)", "n(req: 1)", "o { name }", "o { two }", "o { two(p: 1) }", "o { two(p: 1, q: true) }", "o { two(q: 1) }", "os { name next { name } }", "u { __typename }",
-		"u { ... on Obj { name } ... on Other { w } }", "u { name }", "o { ... on Named { name } }", "o { ...F }", "zork", "o { zork }", "__typename", "__type(name: \"Obj\") { name fields { name } }", "__type { name }",
+		"u { ... on Obj { name } ... on Other { w } }", "u { name }", "u { says }", "u { says(times: 2) }", "u { says(loud: true) }", "u { says(loud: true, times: 1) }", "u { name says(times: $v) }", "o { says(times: 2) }", "o { ... on Named { name } }", "o { ...F }", "zork", "o { zork }", "__typename", "__type(name: \"Obj\") { name fields { name } }", "__type { name }",
 		"__type(name: 3) { name }", "__schema { queryType { name } }", "b @skip", "b @skip(if: $v)", "b @skip(if: 3)", "b @include(if: true) @skip(if: true)", "b @zork", "o @skip(if: false) { name }", "x: b", "b: a"}
 	out := [][2]string{}
 	mk := func() string {
@@ -711,6 +733,81 @@ func c03Requests(r *Rng) [][2]string {
 		out = append(out, [2]string{doc, Pick(r, varsets)})
 	}
 	return out
+}
+
+// c03RefGraph: a few definitions of random kinds with random references among them (fields, implements,
+// union members, input fields with defaults, directive uses on directive arguments): the shapes on which
+// validation and printing recurse.
+func c03RefGraph(r *Rng) string {
+	n := 2 + r.Intn(3)
+	names := []string{"A", "B", "C", "D"}[:n]
+	var b strings.Builder
+	kinds := make([]string, n)
+	for i := range kinds {
+		kinds[i] = Pick(r, []string{"type", "interface", "union", "input", "directive", "directive", "enum"})
+	}
+	ofKind := func(k string) []string {
+		var out []string
+		for i, kk := range kinds {
+			if kk == k {
+				out = append(out, names[i])
+			}
+		}
+		return out
+	}
+	pick := func(xs []string, dflt string) string {
+		if len(xs) == 0 || r.Chance(15) {
+			return dflt
+		}
+		return Pick(r, xs)
+	}
+	wrap := func(t string) string {
+		switch r.Intn(5) {
+		case 0:
+			return "[" + t + "]"
+		case 1:
+			return t + "!"
+		case 2:
+			return "[" + t + "!]!"
+		}
+		return t
+	}
+	dirUse := func() string {
+		ds := ofKind("directive")
+		if len(ds) == 0 || !r.Chance(60) {
+			return ""
+		}
+		return " @" + Pick(r, ds)
+	}
+	for i, nm := range names {
+		switch kinds[i] {
+		case "type":
+			impl := ""
+			if is := ofKind("interface"); len(is) > 0 && r.Chance(60) {
+				impl = " implements " + Pick(r, is)
+			}
+			fmt.Fprintf(&b, "type %s%s%s { f: %s g(x: %s%s): Int%s }\n", nm, impl, dirUse(), wrap(pick(names, "Int")), wrap(pick(ofKind("input"), "Int")), dirUse(), dirUse())
+		case "interface":
+			fmt.Fprintf(&b, "interface %s%s { f: %s }\n", nm, dirUse(), wrap(pick(names, "Int")))
+		case "union":
+			fmt.Fprintf(&b, "union %s%s = %s | %s\n", nm, dirUse(), pick(names, "Zork"), pick(names, nm))
+		case "input":
+			dflt := ""
+			if r.Chance(40) {
+				dflt = " = " + Pick(r, []string{"{f: {f: null}}", "null", "1", "[{f: 1}]", "{g: 1}"})
+			}
+			fmt.Fprintf(&b, "input %s%s { f: %s%s%s g: Int }\n", nm, dirUse(), wrap(pick(append(ofKind("input"), ofKind("enum")...), "Int")), dflt, dirUse())
+		case "directive":
+			locs := "OBJECT | INTERFACE | UNION | INPUT_OBJECT | ENUM | ARGUMENT_DEFINITION | FIELD_DEFINITION | INPUT_FIELD_DEFINITION | ENUM_VALUE"
+			fmt.Fprintf(&b, "directive @%s(a: %s%s, b: Int%s) on %s\n", nm, wrap(pick(append(ofKind("input"), ofKind("enum")...), "Int")), dirUse(), dirUse(), locs)
+		case "enum":
+			fmt.Fprintf(&b, "enum %s%s { X%s Y }\n", nm, dirUse(), dirUse())
+		}
+	}
+	if r.Chance(70) {
+		fmt.Fprintf(&b, "type Query { q: %s }\n", pick(names, "Int"))
+	}
+	return b.String()
 }
 
 func c03Deep(open, close string, n int) string { return strings.Repeat(open, n) + strings.Repeat(close, n) }
@@ -804,7 +901,9 @@ func runC03(o *Out, r *Rng, tier string) {
 	loads := []string{"input I { a = 3 }\ntype Query { f(i: I): Int }", "directive @a(x: Int @b) on OBJECT\ndirective @b(y: Int @a) on ARGUMENT_DEFINITION", "type A implements A { a: Int }", "interface I { a: I }\ntype T implements I { a: T }",
 		"union U = U", "union U = Zork", "extend type Zork { a: Int }", "schema { query: Int }", "schema { query: Q }", "enum E { }", "type T { a: [[[[T!]!]!]!]! }", "input I { a: I! }", "type Query { a(x: I = {a: {a: {a: 1}}}): Int }\ninput I { a: I }",
 		"type Query { a: Int @deprecated(reason: 3) }", "type Query { a: Int @skip }", "scalar Int", "type Query { a: Int }\ntype Query { b: Int }", "extend schema { mutation: M }", "type Query { a: Int = 3 }", "directive @d on ZORK", "\"\"\"d\"\"\" type Query { \"f\" a(\"x\" x: Int = 1): Int }",
-		"type Query { a(x: [Int] = [1, [2]]): Int }", "enum E { true }", "type __T { a: Int }", "type T { __a: Int }", "directive @d(a: Int = {b: [1, {c: $v}]}) on OBJECT\ntype T @d { a: Int }", "type Q @go(type: 3) { a: Int }"}
+		"type Query { a(x: [Int] = [1, [2]]): Int }", "enum E { true }", "type __T { a: Int }", "type T { __a: Int }", "directive @d(a: Int = {b: [1, {c: $v}]}) on OBJECT\ntype T @d { a: Int }", "type Q @go(type: 3) { a: Int }",
+		"directive @entry(a: Int @ping) on OBJECT\ndirective @ping(b: Int @pong) on ARGUMENT_DEFINITION\ndirective @pong(c: Int @ping) on ARGUMENT_DEFINITION",
+		"directive @d(a: Int @dep, b: Int @dep) on OBJECT\ndirective @dep on ARGUMENT_DEFINITION"}
 	for _, l := range loads {
 		cases = append(cases, c03Entry("load", l, "", "", "fixed-load"))
 	}
@@ -816,6 +915,10 @@ func runC03(o *Out, r *Rng, tier string) {
 				cases = append(cases, c03Entry("resolve", Pick(rr, strategies), rq[0], rq[1], "request"))
 			}
 		case 3:
+			if rr.Chance(50) {
+				cases = append(cases, c03Entry("load", c03RefGraph(rr), "", "", "load-refgraph"))
+				continue
+			}
 			set := genSet(rr, sdlOpts{hardDescs: true, defaults: true, dirUses: true, schemaBlk: rr.Chance(30)})
 			txt := set.sdl(true)
 			if rr.Chance(60) {
